@@ -8,7 +8,8 @@ import pfxlib
 import vlib
 
 FOCUS = {
-    "C01": {"theorems": ["C01_state", "C01_reasons", "C01_spec_is_rfc6811", "C01_no_ub", "C01_bits_compare", "C01_bit_select", "C01_bits_compare6", "C01_bit_select6"],
+    "C01": {"theorems": ["C01_state", "C01_reasons", "C01_spec_is_rfc6811", "C01_no_ub", "C01_bits_compare", "C01_bit_select", "C01_bits_compare6", "C01_bit_select6",
+                         "C01_addr_equal", "C01_is_left_child", "C01_covers"],
             "mine": ("validation", "VALID", "INVALID", "NOT_FOUND", "CRASH", "UB")},
     "C02": {"theorems": ["C02_history", "C02_no_change", "C02_distinct"],
             "mine": ("result code", "contents", "enumerated")},
